@@ -3,6 +3,7 @@ package main
 import (
 	"encoding/json"
 	"fmt"
+	"regexp"
 	"strings"
 	"time"
 
@@ -33,6 +34,10 @@ type c10Case struct {
 	NoIssuer bool   `json:"no_idp_issuer"`
 	// FlagAttr: the (unsigned) root carries an attribute SignatureValidated="true"
 	FlagAttr bool `json:"self_asserted_flag_attr,omitempty"`
+	// Shadow: after signing, declarations of unused namespace prefixes named like the decoded
+	// attributes are added (xmlns:ID, xmlns:InResponseTo, xmlns:Destination, xmlns:Version on
+	// the root, xmlns:Value on StatusCode); an exclusive-c14n signature does not cover them
+	Shadow bool `json:"xmlns_shadow,omitempty"`
 }
 
 func c10Spec(c c10Case) idp.LogoutSpec {
@@ -85,6 +90,19 @@ func c10Spec(c c10Case) idp.LogoutSpec {
 // case's fields is embedded into (or its signature moved onto) an attacker-made root of the
 // same kind whose own fields all pass the field checks.
 func c10Render(c c10Case) (enc string, genuineID string) {
+	if c.Sign < 5 && c.Shadow {
+		// after signing: declarations of unused namespace prefixes named like the decoded
+		// attributes (an exclusive-c14n signature does not cover them)
+		doc := idp.BuildLogout(c10Spec(c))
+		x := string(idp.Bytes(doc, idp.Layout{}))
+		gt := strings.Index(x, ">")
+		if x[gt-1] == '/' {
+			gt--
+		}
+		x = x[:gt] + ` xmlns:ID="_evil-logout" xmlns:InResponseTo="_evil-req" xmlns:Destination="` + world.SPSLO + `" xmlns:Version="2.0"` + x[gt:]
+		x = regexp.MustCompile(`(<samlp:StatusCode[^>]*?)(/?>)`).ReplaceAllString(x, `${1} xmlns:Value="urn:oasis:names:tc:SAML:2.0:status:Success"${2}`)
+		return idp.Encode([]byte(x), c.Deflate), ""
+	}
 	if c.Sign < 5 {
 		if c.FlagAttr {
 			doc := idp.BuildLogout(c10Spec(c))
@@ -395,6 +413,11 @@ func c10Cases() []c10Case {
 		cases = append(cases, c)
 		if c.Sign == 0 {
 			c.FlagAttr = true
+			cases = append(cases, c)
+			c.FlagAttr = false
+		}
+		if c.Sign < 5 {
+			c.Shadow = true
 			cases = append(cases, c)
 		}
 	})
